@@ -102,6 +102,9 @@ type step struct {
 	Var   map[string]int `json:"var"`
 	Ext   bool           `json:"ext"`
 	PD2   bool           `json:"pd2"`
+	// follow-up of an authorization request the node accepted for a scope nothing is configured for: the definition the
+	// node itself asks for (fetched from presentation_definition_uri)
+	defOverride *pe.PresentationDefinition
 }
 
 type violation struct {
@@ -594,6 +597,7 @@ func (s step) variant(flag string, n int) int {
 
 // presentation is everything the harness sends for one token / response request
 type presentation struct {
+	defID      string // id of the presentation definition the submission fulfils (when the request has no defect)
 	envelope   string
 	submission string
 	scope      string
@@ -603,14 +607,22 @@ type presentation struct {
 	created    time.Time
 }
 
-// scopeOf returns the scope a step asks for and the definition (and its wallet owner type) the submission fulfils
+// multiScopes: the "multiscope" class. A scope parameter is a space-delimited list (RFC 6749 3.3); the node is configured
+// with one definition per scope VALUE, so for a list of values no definition is configured - whatever one submission
+// fulfils. {template of the scope string ("%s" = the scope of the baseline request), scope value the submission fulfils}
+var multiScopes = []struct{ tmpl, fulfils string }{
+	{"emp %s", "base"}, {"%s emp", "base"}, {"%s emp", "emp"}, {"emp %s", "emp"},
+	{"%s nope-unknown", "base"}, {"nope-unknown %s", "base"}, {"%s\temp", "base"}, {"emp  %s", "base"},
+}
+
+// scopeOf returns the scope string a step asks for and the definition the submission fulfils
 func (w *world) scopeOf(st step) (string, pe.PresentationDefinition, error) {
 	scope := "s1"
 	owner := pe.WalletOwnerOrganization
 	switch {
 	case st.Def != "" && st.Def != "plain":
 		scope = "ovr_" + st.Def
-	case has(st.D, "partial"):
+	case has(st.D, "partial") && !has(st.D, "multiscope"):
 		scope = "dual"
 		if st.variant("partial", 2) == 1 && !has(st.D, "vcsig") && !has(st.D, "revoked") && !has(st.D, "expired") {
 			owner = pe.WalletOwnerUser // only the user definition is fulfilled (credential defects are realised on the organization credential)
@@ -618,15 +630,26 @@ func (w *world) scopeOf(st step) (string, pe.PresentationDefinition, error) {
 	case st.PD2:
 		scope = "s2"
 	}
-	m, ok := w.defs[scope]
+	if st.defOverride != nil {
+		return scope, *st.defOverride, nil
+	}
+	requested, fulfils := scope, scope
+	if has(st.D, "multiscope") {
+		ms := multiScopes[st.variant("multiscope", len(multiScopes))]
+		requested = fmt.Sprintf(ms.tmpl, scope)
+		if ms.fulfils == "emp" && !has(st.D, "vcsig") && !has(st.D, "revoked") && !has(st.D, "expired") {
+			fulfils = "emp"
+		}
+	}
+	m, ok := w.defs[fulfils]
 	if !ok {
-		return scope, pe.PresentationDefinition{}, fmt.Errorf("no policy for scope %s", scope)
+		return requested, pe.PresentationDefinition{}, fmt.Errorf("no policy for scope %s", fulfils)
 	}
 	def, ok := m[owner]
 	if !ok {
-		return scope, def, fmt.Errorf("scope %s has no %s definition", scope, owner)
+		return requested, def, fmt.Errorf("scope %s has no %s definition", fulfils, owner)
 	}
-	return scope, def, nil
+	return requested, def, nil
 }
 
 // buildPresentation realises the defect flags of a step on a valid baseline. flow: "s2s" | "code".
@@ -640,7 +663,7 @@ func (w *world) buildPresentation(st step, flow string, nonce string, audience s
 	if err != nil {
 		return nil, err
 	}
-	p := &presentation{scope: scope, expected: map[string]interface{}{}, vps: 1, nonce: nonce}
+	p := &presentation{scope: scope, defID: def.Id, expected: map[string]interface{}{}, vps: 1, nonce: nonce}
 	h := w.h1
 	// --- credentials, in the order of the input descriptors
 	var kinds []string
@@ -961,6 +984,7 @@ func (w *world) do(req *http.Request) (*reply, error) {
 
 // outcome of a token / response request
 type outcome struct {
+	scope  string // scope member of the token response
 	issued bool
 	token  string
 	code   string
@@ -1028,25 +1052,29 @@ func stageOf(o outcome, issuedStage string) string {
 // ------------------------------------------------------------------------------------------ script execution
 
 type tokenRec struct {
-	id       string
-	token    string
-	flow     string
-	iss      string
-	client   string
-	scope    string
-	cnf      string // jkt or ""
-	cnfKey   string
-	def      string
-	claims   map[string]interface{}
-	issuedAt time.Time // the request left the harness
-	recvAt   time.Time // the answer arrived
-	shift    time.Duration
-	vps      int
-	defID    string
-	clean    bool
+	satisfied []string // scope values whose configured definitions the presentations of a clean request fulfil
+	id        string
+	token     string
+	flow      string
+	iss       string
+	client    string
+	scope     string
+	cnf       string // jkt or ""
+	cnfKey    string
+	def       string
+	claims    map[string]interface{}
+	issuedAt  time.Time // the request left the harness
+	recvAt    time.Time // the answer arrived
+	shift     time.Duration
+	vps       int
+	defID     string
+	clean     bool
 }
 
 type sessRec struct {
+	authDefects                                                                 []string                   // defect flags of the authorization request the node accepted nevertheless
+	pd                                                                          *pe.PresentationDefinition // (then:) the definition the node asks the wallet for
+	pdURI                                                                       string
 	id, client, def, verifier, state, nonce, responseURI, audience, scope, code string
 	usedCode                                                                    bool
 }
@@ -1147,6 +1175,7 @@ func (r *runner) sendToken(sr *sentReq) (outcome, error) {
 	if rep.status == 200 && rep.json != nil {
 		if at, ok := rep.json["access_token"].(string); ok && at != "" {
 			o.issued, o.token = true, at
+			o.scope, _ = rep.json["scope"].(string)
 			return o, nil
 		}
 	}
@@ -1167,6 +1196,35 @@ func (r *runner) recordToken(i int, st step, sr *sentReq, o outcome, flow string
 	}
 	if k := r.w.dk[dpopKey]; k != nil {
 		tr.cnf, tr.cnfKey = k.jkt, dpopKey
+	}
+	// The scope the token stands for is what the token response says (the requested string when it says nothing). For a
+	// request without defect flag every scope VALUE of it must be a configured scope all of whose definitions the
+	// submission fulfils - the node may grant less than was asked for, never more than was checked.
+	if o.scope != "" {
+		if o.scope != scope {
+			r.drift("step %d: scope %q requested, token response says %q", i, scope, o.scope)
+		}
+		tr.scope = o.scope
+	}
+	if p != nil {
+		for v, m := range r.w.defs {
+			all := len(m) > 0
+			for _, def := range m {
+				all = all && def.Id == p.defID
+			}
+			if all {
+				tr.satisfied = append(tr.satisfied, v)
+			}
+		}
+		sort.Strings(tr.satisfied)
+		if clean {
+			if bad := notSatisfied(tr.scope, tr.satisfied); len(bad) > 0 {
+				tr.clean = false
+				r.violate(i, "issued-with-defect", map[string]interface{}{"flow": flow, "defect": "scope-not-fulfilled"},
+					fmt.Sprintf("token for scope %q: the submission fulfils definition %s (configured for %v); nothing fulfils the definition(s) of %v",
+						tr.scope, p.defID, tr.satisfied, bad))
+			}
+		}
 	}
 	r.tokens[id] = tr
 	return id
@@ -1309,6 +1367,17 @@ func (r *runner) observe(i int, st step, m map[string]interface{}) {
 	}
 }
 
+// notSatisfied returns the values of a scope string that are not among the satisfied scope values
+func notSatisfied(scope string, satisfied []string) []string {
+	var bad []string
+	for _, v := range strings.Fields(scope) {
+		if !containsStr(satisfied, v) {
+			bad = append(bad, v)
+		}
+	}
+	return bad
+}
+
 // --- authorization code flow
 
 func b64json(seg string) map[string]interface{} {
@@ -1333,6 +1402,12 @@ func (r *runner) authorize(i int, st step) (*sessRec, error) {
 		scope = "ovr_" + st.Def
 	} else if st.PD2 {
 		scope = "s2"
+	}
+	if has(st.D, "multiscope") {
+		scope = fmt.Sprintf(multiScopes[st.variant("multiscope", len(multiScopes))].tmpl, scope)
+	}
+	if has(st.D, "scope") {
+		scope = "nope-" + uuid.NewString()[:4]
 	}
 	claims := map[string]interface{}{
 		"iss": w.clientDID[cs], "client_id": w.clientID(st.Client), "aud": w.asURL(), "response_type": "code",
@@ -1366,11 +1441,14 @@ func (r *runner) authorize(i int, st step) (*sessRec, error) {
 			s.nonce, _ = ro["nonce"].(string)
 			s.responseURI, _ = ro["response_uri"].(string)
 			s.audience, _ = ro["client_id"].(string)
+			s.pdURI, _ = ro["presentation_definition_uri"].(string)
 			ok = s.state != "" && s.nonce != "" && s.responseURI != ""
 		}
 		if !ok {
 			r.drift("step %d: request object not usable: %d %s", i, rep2.status, string(rep2.body[:min(len(rep2.body), 200)]))
 		}
+	} else if len(st.D) > 0 {
+		return nil, nil // refused, as it should be
 	} else {
 		e, dsc := rep.oauthError()
 		r.drift("step %d: authorization request refused: %d %s %s", i, rep.status, e, dsc)
@@ -1386,9 +1464,46 @@ func (r *runner) stepAuthorize(i int, st step) error {
 	if err != nil {
 		return err
 	}
-	r.sess[st.S] = s
-	r.res.Trace = append(r.res.Trace, map[string]interface{}{"ev": "authorize", "s": st.S, "client": st.Client, "def": orPlain(st.Def), "res": "ok"})
-	return nil
+	d := sortedD(st.D)
+	r.res.Checks++
+	if s == nil {
+		r.res.Trace = append(r.res.Trace, map[string]interface{}{"ev": "authorize", "s": "none", "client": st.Client, "def": orPlain(st.Def), "d": d, "res": "refused"})
+		return nil
+	}
+	// sessions are named in the order the node opened them (the model does the same)
+	s.id = fmt.Sprintf("s%d", len(r.sess)+1)
+	if st.S != "" && st.S != "none" && st.S != s.id {
+		r.drift("step %d: the model names this session %s, it is session number %d of the node", i, st.S, len(r.sess)+1)
+	}
+	r.sess[s.id] = s
+	r.res.Trace = append(r.res.Trace, map[string]interface{}{"ev": "authorize", "s": s.id, "client": st.Client, "def": orPlain(st.Def), "d": d, "res": "ok"})
+	if len(d) == 0 {
+		return nil
+	}
+	// The node opened a session for a scope string nothing is configured for. The session is only the intermediate
+	// artefact: the harness plays the flow to its end with a valid response for the definition the node asks for and a
+	// valid token request - a token is the violation of C02. The rest of the script is not meaningful any more.
+	r.drift("step %d: authorization request with defects %v (scope %q) accepted", i, d, s.scope)
+	s.authDefects = d
+	if s.pdURI != "" {
+		req, _ := http.NewRequest(http.MethodGet, s.pdURI, nil)
+		req.Header.Set("Accept", "application/json")
+		if rep, err := r.w.do(req); err == nil && rep.status == 200 {
+			var pd pe.PresentationDefinition
+			if json.Unmarshal(rep.body, &pd) == nil && pd.Id != "" {
+				s.pd = &pd
+			}
+		}
+	}
+	if err := r.stepAuthzResponse(i, step{A: "AuthzResponse", S: s.id, Fmt: "ldp", VCFmt: "ldp", Res: "code"}); err != nil {
+		return err
+	}
+	if s.code != "" {
+		if err := r.stepCodeToken(i, step{A: "CodeToken", S: s.id, Dpop: "none"}); err != nil {
+			return err
+		}
+	}
+	return errStop
 }
 
 func (r *runner) stepAuthzResponse(i int, st step) error {
@@ -1399,6 +1514,7 @@ func (r *runner) stepAuthzResponse(i int, st step) error {
 	}
 	st.Def = s.def
 	st.PD2 = s.scope == "s2"
+	st.defOverride = s.pd
 	nonce := s.nonce
 	dOrig := st.D
 	if has(st.D, "badnonce") && st.variant("badnonce", 2) == 1 {
@@ -1543,6 +1659,9 @@ func (r *runner) stepCodeToken(i int, st step) error {
 			for _, x := range si.defects {
 				all = append(all, "response:"+x)
 			}
+		}
+		for _, x := range s.authDefects {
+			all = append(all, "authorize:"+x)
 		}
 		if s.code == "" {
 			all = append(all, "no-code-issued")
